@@ -10,7 +10,8 @@ from .common import Driver
 THEOREM_MODULES = ["PygacModel.Theorems.C07"]
 RULE = ("passes whose line i carries quality bit (i mod 32) alone, then random / all-ones / three-bit-complement words; "
         "for each a twin with quality 0 and a twin differing only in the other 29 bits; products compared row by row "
-        "(mask, 7-column summary, calibrated channels, lon/lat, 5 angles); passes at the top of each line-number field's range "
+        "(mask, 7-column summary, calibrated channels, lon/lat, 5 angles); passes with exactly one flagged line (first / last / "
+        "inner record); passes at the top of each line-number field's range "
         "(32762.., 65520.., 14980..). A case = (format, line); non-trivial = "
         "quality word != 0; distinct by (family, quality word)")
 
@@ -58,6 +59,11 @@ def quality_words(rng, n, fam, kind):
         q = np.full(n, (~tb) & 0xFFFFFFFF, dtype=np.uint64)
         for i in range(0, n, 7):
             q[i] |= np.uint64(1 << BITS[fam][(i // 7) % 3])
+        return q
+    if kind.startswith("single"):   # exactly one flagged line in the whole pass: the first, the last or one in between
+        q = np.array([rng.getrandbits(32) & (~tb & 0xFFFFFFFF) for _ in range(n)], dtype=np.uint64)
+        i = {"single-first": 0, "single-last": n - 1}.get(kind, rng.randrange(1, n - 1))
+        q[i] |= np.uint64(1 << rng.choice(BITS[fam]))
         return q
     raise ValueError(kind)
 
@@ -131,6 +137,8 @@ def run(ctx):
             ("klmGac", 64, "random", False), ("podGac", 64, "random", False),
             ("klmLac", 40, "walk", True), ("podLac", 40, "walk", False),
             ("klmGac", 60, "complement", True), ("podGac", 60, "complement", True)]
+    for fmt in ("klmGac", "podGac") + (("klmLac", "podLac") if ctx.thorough else ()):
+        plan += [(fmt, 14, "single-first", True), (fmt, 14, "single-last", False), (fmt, 14, "single-mid", True)]
     if ctx.thorough:
         for k in range(12):
             plan += [("klmGac", 200, "random", bool(k % 2)), ("podGac", 200, "random", bool(k % 2)),
